@@ -1,12 +1,24 @@
 #!/bin/bash
 # Runs the claimed checks against every seeded mutant; prints which check (if any) catches it
 # and records the result in seeded/results.json.
+# Works on a scratch worktree of /repo (outside /repo and /verif), removed afterwards,
+# so /repo's working tree stays untouched while this runs.
 cd /verif
-python3 - <<'PY'
-import json,glob,subprocess,re,os
+W=${EVAL_WORKTREE:-/scratch/evalrepo}
+mkdir -p "$(dirname "$W")"
+git -C /repo worktree remove --force "$W" 2>/dev/null
+git -C /repo worktree add -q --detach "$W" HEAD || exit 2
+export VERIF_REPO="$W"
+trap 'git -C /repo worktree remove --force "$W"; git -C /repo worktree prune' EXIT
+python3 - "$@" <<'PY'
+import json,glob,subprocess,re,os,sys
 res={}
+only=sys.argv[1:]
+try: res=json.load(open('/verif/seeded/results.json')) if only else {}
+except Exception: res={}
 for d in sorted(glob.glob('/verif/seeded/*/meta.json')):
     m=json.load(open(d)); i=m['id']
+    if only and not any(i.startswith(o) for o in only): continue
     props=[m['property']]+m.get('also_check',[])
     out=subprocess.run(['/verif/tools/try_mutant.sh','/verif/seeded/%s/patch.diff'%i]+props,capture_output=True,text=True).stdout
     obs=[]
